@@ -61,6 +61,14 @@ func (w *World) runPass(pass string, cfg *PropCfg, inSet interface{}) []DFResult
 		return w.passAlloc(fns)
 	case "pool-discipline":
 		return w.passPools(fns)
+	case "pool-escape":
+		roots := cfg.DFRoots
+		if len(roots) == 0 {
+			roots = decodeRoots
+		}
+		return w.passPoolEscape(fns, roots)
+	case "pool-fill":
+		return w.passPoolFill(fns)
 	}
 	return []DFResult{{Name: "dataflow#unknown-pass:" + pass, OK: false, Detail: "pass not implemented"}}
 }
@@ -1075,4 +1083,647 @@ func findLoopsBlocks(fn *ssa.Function) map[int]bool {
 	}
 	loopBlocksCache[fn] = m
 	return m
+}
+
+// ---------- C04: pooled memory never escapes into results; pooled pixel buffers are fully overwritten ----------
+
+var errType = types.Universe.Lookup("error").Type()
+
+// pooledElemTypes: the element types of the declared pools, as type strings ("*exif2.buffer", "*bufio.Reader", "*[]float64").
+func (w *World) pooledElemTypes() map[string]bool {
+	out := map[string]bool{}
+	for g, t := range w.pools {
+		pkg := w.poolPkg[g]
+		s := t
+		if strings.HasPrefix(s, "*") && !strings.Contains(s, ".") && !strings.HasPrefix(s, "*[]") && pkg != "" {
+			s = "*" + pkg + "." + s[1:]
+		}
+		out[s] = true
+	}
+	return out
+}
+
+func relTypeString(t types.Type) string {
+	return types.TypeString(t, func(p *types.Package) string { return relPkg(p.Path()) })
+}
+
+// refLike: can a value of this type reference memory (so that copying it does not copy what it refers to)?
+func refLike(t types.Type) bool {
+	switch u := t.Underlying().(type) {
+	case *types.Pointer, *types.Slice, *types.Map, *types.Chan, *types.Interface, *types.Signature:
+		return true
+	case *types.Struct:
+		for i := 0; i < u.NumFields(); i++ {
+			if refLike(u.Field(i).Type()) {
+				return true
+			}
+		}
+	case *types.Array:
+		return refLike(u.Elem())
+	case *types.Tuple:
+		for i := 0; i < u.Len(); i++ {
+			if refLike(u.At(i).Type()) {
+				return true
+			}
+		}
+	}
+	return false
+}
+
+// passPoolEscape: taint analysis over go/ssa. A value is POOLED when it refers into an object taken from a sync.Pool (the
+// object itself, an interior pointer, a slice of one of its arrays, a slice handed out by a pooled bufio.Reader). Struct
+// values and local variables are tracked per field path. Obligation per function: no pooled reference is stored into
+// memory that outlives the call (a field of a non-pooled heap object, a package variable) - except into a field whose
+// type is the pool's element type (reader structs hold their pooled buffer for the duration of a decode) - and, for the
+// entry points, no result contains one. Summaries (which parts of which result are pooled / derived from which parameter)
+// are computed to a fixpoint over the module call graph. Strings made by string([]byte) and scalars are copies.
+func (w *World) passPoolEscape(fns []*ssa.Function, roots []string) []DFResult {
+	pooledT := w.pooledElemTypes()
+	isPooledType := func(t types.Type) bool { return pooledT[relTypeString(t)] }
+	type taint struct {
+		paths map[string]bool // field paths ("" = the value itself) that hold a reference into pooled memory
+		from  map[int]bool    // may refer into memory reachable from these parameters
+	}
+	empty := func(t taint) bool { return len(t.paths) == 0 && len(t.from) == 0 }
+	merge := func(a *taint, b taint, prefix string) bool {
+		ch := false
+		for p := range b.paths {
+			k := p
+			if prefix != "" {
+				if p == "" {
+					k = prefix
+				} else {
+					k = prefix + "." + p
+				}
+			}
+			if !a.paths[k] {
+				if a.paths == nil {
+					a.paths = map[string]bool{}
+				}
+				a.paths[k] = true
+				ch = true
+			}
+		}
+		for k := range b.from {
+			if !a.from[k] {
+				if a.from == nil {
+					a.from = map[int]bool{}
+				}
+				a.from[k] = true
+				ch = true
+			}
+		}
+		return ch
+	}
+	// sub-taint of a struct value / cell at a field path
+	sub := func(t taint, path string) taint {
+		out := taint{from: t.from}
+		for p := range t.paths {
+			switch {
+			case p == path:
+				if out.paths == nil {
+					out.paths = map[string]bool{}
+				}
+				out.paths[""] = true
+			case strings.HasPrefix(p, path+"."):
+				if out.paths == nil {
+					out.paths = map[string]bool{}
+				}
+				out.paths[p[len(path)+1:]] = true
+			case p == "" || strings.HasPrefix(path, p+"."):
+				if out.paths == nil {
+					out.paths = map[string]bool{}
+				}
+				out.paths[""] = true
+			}
+		}
+		return out
+	}
+	type summary struct {
+		res []taint // per result
+	}
+	sums := map[*ssa.Function]*summary{}
+	inSet := map[*ssa.Function]bool{}
+	for _, f := range fns {
+		inSet[f] = true
+		sums[f] = &summary{res: make([]taint, f.Signature.Results().Len())}
+	}
+	fieldName := func(x ssa.Value, idx int) string {
+		t := x.Type()
+		if pt, ok := t.Underlying().(*types.Pointer); ok {
+			t = pt.Elem()
+		}
+		if st, ok := t.Underlying().(*types.Struct); ok && idx < st.NumFields() {
+			return st.Field(idx).Name()
+		}
+		return fmt.Sprint(idx)
+	}
+	typeAt := func(t types.Type, path string) types.Type {
+		if path == "" {
+			return t
+		}
+		for _, f := range strings.Split(path, ".") {
+			st, ok := t.Underlying().(*types.Struct)
+			if !ok {
+				return nil
+			}
+			var ft types.Type
+			for i := 0; i < st.NumFields(); i++ {
+				if st.Field(i).Name() == f {
+					ft = st.Field(i).Type()
+				}
+			}
+			if ft == nil {
+				return nil
+			}
+			t = ft
+		}
+		return t
+	}
+	var viol map[*ssa.Function][]string
+	analyse := func(fn *ssa.Function, report bool) bool {
+		tv := map[ssa.Value]*taint{}
+		cells := map[*ssa.Alloc]*taint{} // contents of local variables, per field path
+		var resolve func(a ssa.Value) (*ssa.Alloc, string, bool)
+		resolve = func(a ssa.Value) (*ssa.Alloc, string, bool) {
+			switch x := a.(type) {
+			case *ssa.Alloc:
+				return x, "", true
+			case *ssa.FieldAddr:
+				if al, p, ok := resolve(x.X); ok {
+					n := fieldName(x.X, x.Field)
+					if p != "" {
+						n = p + "." + n
+					}
+					return al, n, true
+				}
+			}
+			return nil, "", false
+		}
+		get := func(v ssa.Value) taint {
+			if v == nil {
+				return taint{}
+			}
+			t := taint{}
+			if x, ok := tv[v]; ok {
+				t = *x
+			}
+			if isPooledType(v.Type()) {
+				t2 := taint{}
+				merge(&t2, t, "")
+				merge(&t2, taint{paths: map[string]bool{"": true}}, "")
+				return t2
+			}
+			return t
+		}
+		set := func(v ssa.Value, t taint) bool {
+			if empty(t) || !refLike(v.Type()) {
+				return false
+			}
+			if types.Identical(v.Type(), errType) {
+				return false // error values are sentinels / freshly built messages, never references into buffers (assumed for dependencies)
+			}
+			if tup, ok := v.Type().(*types.Tuple); ok && len(t.paths) > 0 && t.paths[""] {
+				// a tuple from a dependency call: only its non-error reference components can alias the buffers
+				nt := taint{from: t.from, paths: map[string]bool{}}
+				for i := 0; i < tup.Len(); i++ {
+					if refLike(tup.At(i).Type()) && !types.Identical(tup.At(i).Type(), errType) {
+						nt.paths[fmt.Sprintf("#%d", i)] = true
+					}
+				}
+				for p := range t.paths {
+					if p != "" {
+						nt.paths[p] = true
+					}
+				}
+				t = nt
+			}
+			cur, ok := tv[v]
+			if !ok {
+				cur = &taint{}
+				tv[v] = cur
+			}
+			return merge(cur, t, "")
+		}
+		whole := func(t taint) taint { // interior pointer / slice of something pooled: the derived reference is pooled itself
+			if len(t.paths) > 0 {
+				return taint{paths: map[string]bool{"": true}, from: t.from}
+			}
+			return taint{from: t.from}
+		}
+		for i, p := range fn.Params {
+			if refLike(p.Type()) {
+				set(p, taint{from: map[int]bool{i: true}})
+			}
+		}
+		for iter := 0; iter < 16; iter++ {
+			ch := false
+			for _, b := range fn.Blocks {
+				for _, ins := range b.Instrs {
+					switch x := ins.(type) {
+					case *ssa.FieldAddr:
+						if _, _, ok := resolve(x); ok {
+							break // address of a local field: contents are tracked in cells
+						}
+						ch = set(x, whole(get(x.X))) || ch
+					case *ssa.IndexAddr:
+						ch = set(x, whole(get(x.X))) || ch
+					case *ssa.Slice:
+						if al, p, ok := resolve(x.X); ok {
+							// slicing a local array: the slice refers to the local, pooled only if the array cell is
+							_ = al
+							_ = p
+							break
+						}
+						ch = set(x, whole(get(x.X))) || ch
+					case *ssa.Field:
+						ch = set(x, sub(get(x.X), fieldName(x.X, x.Field))) || ch
+					case *ssa.Index:
+						ch = set(x, whole(get(x.X))) || ch
+					case *ssa.ChangeType:
+						ch = set(x, get(x.X)) || ch
+					case *ssa.ChangeInterface:
+						ch = set(x, get(x.X)) || ch
+					case *ssa.MakeInterface:
+						ch = set(x, whole(get(x.X))) || ch
+					case *ssa.TypeAssert:
+						ch = set(x, whole(get(x.X))) || ch
+					case *ssa.Extract:
+						t := get(x.Tuple)
+						ch = set(x, sub(t, fmt.Sprintf("#%d", x.Index))) || ch
+					case *ssa.Convert:
+						if _, isStr := x.Type().Underlying().(*types.Basic); isStr {
+							break
+						}
+						if _, fromStr := x.X.Type().Underlying().(*types.Basic); fromStr {
+							break
+						}
+						ch = set(x, get(x.X)) || ch
+					case *ssa.Phi:
+						for _, e := range x.Edges {
+							ch = set(x, get(e)) || ch
+						}
+					case *ssa.UnOp:
+						if x.Op != token.MUL {
+							break
+						}
+						if al, p, ok := resolve(x.X); ok {
+							if c := cells[al]; c != nil {
+								ch = set(x, sub(*c, p)) || ch
+							}
+							break
+						}
+						// load through a pointer: contents of pooled memory are pooled, contents of parameter memory
+						// derive from the parameter
+						ch = set(x, whole(get(x.X))) || ch
+					case *ssa.Store:
+						if al, p, ok := resolve(x.Addr); ok {
+							t := get(x.Val)
+							if !empty(t) {
+								c := cells[al]
+								if c == nil {
+									c = &taint{}
+									cells[al] = c
+								}
+								ch = merge(c, t, p) || ch
+							}
+						} else if ia, ok := x.Addr.(*ssa.IndexAddr); ok {
+							if al, p, ok := resolve(ia.X); ok {
+								t := whole(get(x.Val))
+								if !empty(t) {
+									c := cells[al]
+									if c == nil {
+										c = &taint{}
+										cells[al] = c
+									}
+									ch = merge(c, t, p) || ch
+								}
+							}
+						}
+					case *ssa.Call:
+						com := &x.Call
+						pkg, name := calleeOf(com)
+						if pkg == "sync" && name == "Pool.Get" {
+							ch = set(x, taint{paths: map[string]bool{"": true}}) || ch
+							break
+						}
+						if callee := com.StaticCallee(); callee != nil && inSet[callee] {
+							s := sums[callee]
+							t := taint{}
+							for ri, rt := range s.res {
+								pfx := ""
+								if len(s.res) > 1 {
+									pfx = fmt.Sprintf("#%d", ri)
+								}
+								merge(&t, taint{paths: rt.paths}, pfx)
+								for k := range rt.from {
+									if k < len(com.Args) {
+										a := get(com.Args[k])
+										// the result may refer into what the argument refers into
+										merge(&t, whole(a), pfx)
+									}
+								}
+							}
+							ch = set(x, t) || ch
+							break
+						}
+						if b, ok := com.Value.(*ssa.Builtin); ok {
+							if b.Name() == "append" && len(com.Args) > 0 {
+								ch = set(x, get(com.Args[0])) || ch
+							}
+							break
+						}
+						if refLike(x.Type()) {
+							t := taint{}
+							for _, a := range com.Args {
+								merge(&t, whole(get(a)), "")
+							}
+							if com.IsInvoke() {
+								merge(&t, whole(get(com.Value)), "")
+							}
+							if callee := com.StaticCallee(); callee != nil && callee.Pkg != nil {
+								switch callee.Pkg.Pkg.Path() {
+								case "errors", "fmt", "github.com/pkg/errors", "strconv", "time", "strings", "github.com/rs/zerolog":
+									t = taint{} // results are fresh / not references into the arguments' buffers
+								}
+							}
+							ch = set(x, t) || ch
+						}
+					}
+				}
+			}
+			if !ch {
+				break
+			}
+		}
+		changedSummary := false
+		s := sums[fn]
+		isRoot := false
+		for _, rt := range roots {
+			if matched(rt, fnName(fn)) {
+				isRoot = true
+			}
+		}
+		for _, b := range fn.Blocks {
+			for _, ins := range b.Instrs {
+				switch x := ins.(type) {
+				case *ssa.Return:
+					for ri, r := range x.Results {
+						if !refLike(r.Type()) {
+							continue
+						}
+						t := get(r)
+						if merge(&s.res[ri], t, "") {
+							changedSummary = true
+						}
+						if report && isRoot {
+							for p := range t.paths {
+								if ft := typeAt(r.Type(), p); ft != nil && isPooledType(ft) {
+									continue
+								}
+								viol[fn] = append(viol[fn], fmt.Sprintf("result %d%s holds a reference into pooled memory (return at %s)", ri, map[bool]string{true: "", false: " field " + p}[p == ""], w.posOf(x.Pos())))
+							}
+						}
+					}
+				case *ssa.Store:
+					if !report {
+						continue
+					}
+					if _, _, ok := resolve(x.Addr); ok {
+						continue
+					}
+					if ia, ok := x.Addr.(*ssa.IndexAddr); ok {
+						if _, _, ok := resolve(ia.X); ok {
+							continue
+						}
+					}
+					t := get(x.Val)
+					if len(t.paths) == 0 || !refLike(x.Val.Type()) {
+						continue
+					}
+					if len(get(x.Addr).paths) > 0 {
+						continue // into pooled memory itself
+					}
+					if fa, ok := x.Addr.(*ssa.FieldAddr); ok {
+						// a direct field of a reader object that holds pooled resources for the duration of a call
+						// (jpegReader.buf next to jpegReader.br): such objects are created per call and not returned
+						if pt, ok := fa.X.Type().Underlying().(*types.Pointer); ok {
+							if stt, ok := pt.Elem().Underlying().(*types.Struct); ok {
+								holder := false
+								for i := 0; i < stt.NumFields(); i++ {
+									if isPooledType(stt.Field(i).Type()) {
+										holder = true
+									}
+								}
+								if holder {
+									continue
+								}
+							}
+						}
+					}
+					for p := range t.paths {
+						if ft := typeAt(x.Val.Type(), p); ft != nil && isPooledType(ft) {
+							continue // a holder field of the pool's element type
+						}
+						viol[fn] = append(viol[fn], fmt.Sprintf("stores a reference into pooled memory (%s%s) outside the pooled object at %s", relTypeString(x.Val.Type()), map[bool]string{true: "", false: " field " + p}[p == ""], w.posOf(x.Pos())))
+					}
+				}
+			}
+		}
+		return changedSummary
+	}
+	for round := 0; round < 10; round++ {
+		ch := false
+		for _, fn := range fns {
+			if analyse(fn, false) {
+				ch = true
+			}
+		}
+		if !ch {
+			break
+		}
+	}
+	viol = map[*ssa.Function][]string{}
+	var out []DFResult
+	for _, fn := range fns {
+		analyse(fn, true)
+		d := "no reference into pooled memory is stored outside the pooled object, a holder field or a local"
+		for _, rt := range roots {
+			if matched(rt, fnName(fn)) {
+				d += "; no result holds one (entry point)"
+			}
+		}
+		ok := len(viol[fn]) == 0
+		if !ok {
+			seen := map[string]bool{}
+			var vs []string
+			for _, v := range viol[fn] {
+				if !seen[v] {
+					seen[v] = true
+					vs = append(vs, v)
+				}
+			}
+			d = strings.Join(vs, "; ")
+		}
+		out = append(out, DFResult{Name: fnName(fn) + "#pool-escape", OK: ok, Detail: d, At: w.posOf(fn.Pos())})
+	}
+	sort.Slice(out, func(i, j int) bool { return out[i].Name < out[j].Name })
+	return out
+}
+
+// passPoolFill: pooled pixel buffers ([]float32 / []float64 parameters of the conversion kernels) hold whatever the previous
+// user left. Obligation per store loop: every iteration of a loop that stores into the buffer performs the store - the
+// store's block dominates every back edge of its innermost loop - so no element of the iterated range keeps a stale value.
+// (That the iterated range is the whole buffer is the size guard of C19.)
+func (w *World) passPoolFill(fns []*ssa.Function) []DFResult {
+	var out []DFResult
+	for _, fn := range fns {
+		if fn.Pkg == nil || !strings.Contains(fn.Pkg.Pkg.Path(), "/imagehash") {
+			continue
+		}
+		// buffer parameters: slices of float32/float64 (or pointers to such slices)
+		bufParam := map[ssa.Value]bool{}
+		for _, p := range fn.Params {
+			t := p.Type()
+			if pt, ok := t.Underlying().(*types.Pointer); ok {
+				t = pt.Elem()
+			}
+			if sl, ok := t.Underlying().(*types.Slice); ok {
+				if b, ok := sl.Elem().Underlying().(*types.Basic); ok && (b.Kind() == types.Float32 || b.Kind() == types.Float64) {
+					bufParam[p] = true
+				}
+			}
+		}
+		hasImage := false
+		for _, p := range fn.Params {
+			if strings.Contains(types.TypeString(p.Type(), nil), "image.") {
+				hasImage = true
+			}
+		}
+		if len(bufParam) == 0 || !hasImage {
+			continue // only the image -> gray conversion kernels fill a pooled buffer from scratch
+		}
+		derives := func(v ssa.Value) bool {
+			for d := 0; d < 8; d++ {
+				if bufParam[v] {
+					return true
+				}
+				switch x := v.(type) {
+				case *ssa.UnOp:
+					v = x.X
+				case *ssa.Slice:
+					v = x.X
+				case *ssa.IndexAddr:
+					v = x.X
+				case *ssa.Alloc:
+					// spilled parameter in naive form: find the store of a parameter into it
+					found := false
+					for _, r := range *x.Referrers() {
+						if st, ok := r.(*ssa.Store); ok && st.Addr == x && bufParam[st.Val] {
+							found = true
+						}
+					}
+					return found
+				default:
+					return false
+				}
+			}
+			return false
+		}
+		loops := findLoops(fn, w.fset)
+		dom := dominators(fn)
+		n := 0
+		for _, b := range fn.Blocks {
+			for _, ins := range b.Instrs {
+				st, ok := ins.(*ssa.Store)
+				if !ok {
+					continue
+				}
+				ia, ok := st.Addr.(*ssa.IndexAddr)
+				if !ok || !derives(ia.X) {
+					continue
+				}
+				// innermost loop containing the store
+				var inner *loopInfo
+				for _, li := range loops {
+					if li.blocks[b.Index] && (inner == nil || len(li.blocks) < len(inner.blocks)) {
+						inner = li
+					}
+				}
+				if inner == nil {
+					continue
+				}
+				okAll := true
+				for _, lb := range fn.Blocks {
+					if !inner.blocks[lb.Index] {
+						continue
+					}
+					for _, s := range lb.Succs {
+						if s.Index == inner.header && !dom[lb.Index][b.Index] {
+							okAll = false
+						}
+					}
+				}
+				n++
+				d := "the store is executed by every iteration of its loop"
+				if !okAll {
+					d = "an iteration of the loop can reach the back edge without executing this store: elements of the pooled buffer may keep stale values"
+				}
+				out = append(out, DFResult{Name: fmt.Sprintf("%s#pool-fill@%d", fnName(fn), n), OK: okAll, Detail: d, At: w.posOf(st.Pos())})
+			}
+		}
+	}
+	sort.Slice(out, func(i, j int) bool { return out[i].Name < out[j].Name })
+	return out
+}
+
+// dominators: dom[b][a] == true iff block a dominates block b (simple iterative algorithm; the CFGs are small).
+func dominators(fn *ssa.Function) []map[int]bool {
+	n := len(fn.Blocks)
+	dom := make([]map[int]bool, n)
+	all := map[int]bool{}
+	for i := 0; i < n; i++ {
+		all[i] = true
+	}
+	for i := range dom {
+		if i == 0 {
+			dom[i] = map[int]bool{0: true}
+		} else {
+			m := map[int]bool{}
+			for k := range all {
+				m[k] = true
+			}
+			dom[i] = m
+		}
+	}
+	for changed := true; changed; {
+		changed = false
+		for i := 1; i < n; i++ {
+			b := fn.Blocks[i]
+			var inter map[int]bool
+			for _, p := range b.Preds {
+				if inter == nil {
+					inter = map[int]bool{}
+					for k := range dom[p.Index] {
+						inter[k] = true
+					}
+				} else {
+					for k := range inter {
+						if !dom[p.Index][k] {
+							delete(inter, k)
+						}
+					}
+				}
+			}
+			if inter == nil {
+				inter = map[int]bool{}
+			}
+			inter[i] = true
+			if len(inter) != len(dom[i]) {
+				dom[i] = inter
+				changed = true
+			}
+		}
+	}
+	return dom
 }
